@@ -264,7 +264,10 @@ def history(ctx, case):
                     how = ["list", "generator", "path"][(salt + step) % 3] if args["batch"] else "list"
                     data, tmp = to_features(args["batch"], how, ctx)
                     try:
-                        db.update(data, merge_strategy=args["strategy"], make_backup=True)
+                        # the verbose argument only controls logging: not given / False / True / 'debug'
+                        vkw = [{}, {"verbose": False}, {"verbose": True}, {"verbose": "debug"}][(salt // 3 + step) % 4]
+                        ctx.mon("updates with verbose=%r" % (vkw.get("verbose", "not given"),))
+                        db.update(data, merge_strategy=args["strategy"], make_backup=True, **vkw)
                     finally:
                         if tmp and os.path.exists(tmp):
                             os.unlink(tmp)
